@@ -138,7 +138,6 @@ func registerConcolic(e *Engine) {
 			}
 		}
 		e.rep.note("concolic-parse", fmt.Sprintf("representative parsed natively, %d model(s) agree on the tree shape", len(shapes)))
-		_ = rep
 		tup := in.Common().Signature().Results()
 		treePtrT := tup.At(0).Type().(*types.Pointer)
 		if firstErr != nil {
@@ -149,6 +148,22 @@ func registerConcolic(e *Engine) {
 		tz := e.zero(treeT).(StructVal)
 		tz.f[fieldIdx(ts, "path")] = a[0]
 		tz.f[fieldIdx(ts, "content")] = content
+		// line offsets (used only for positions in error messages) are taken from
+		// the representative
+		{
+			lf := fieldIdx(ts, "lines")
+			offs := []int{0}
+			for i := 0; i < len(rep); i++ {
+				if rep[i] == '\n' {
+					offs = append(offs, i+1)
+				}
+			}
+			vals := make([]Val, len(offs))
+			for i, o := range offs {
+				vals[i] = ConstBV(64, uint64(o))
+			}
+			tz.f[lf] = SliceVal{st.alloc(ArrayVal{vals}), 0, len(vals), len(vals)}
+		}
 		treeID := st.alloc(tz)
 		nodeT := ts.Field(fieldIdx(ts, "root")).Type().(*types.Pointer).Elem()
 		ns := nodeT.Underlying().(*types.Struct)
